@@ -265,6 +265,69 @@ def r3_exit_structure(ctx: Context) -> None:
                   f"returns `{norm(v)[:60] if v is not None else None}`")
 
 
+def r7_end_of_work(ctx: Context) -> None:
+    ctx.rule("C05.R7", "a SIMULATOR_END event that is not the timeout exit is created only under a test that entails: the "
+                       "event queue is empty (peek() is None), nothing is schedulable, nothing is running")
+    sim = Sim(ctx.repo)
+    fn = _next_sched(sim)
+    g = cfgmod.build(fn)
+
+    def local_from(callname, recv=None):
+        out = []
+        for a in ast.walk(fn):
+            if isinstance(a, ast.Assign) and len(a.targets) == 1:
+                tgt, val = a.targets[0], a.value
+            elif isinstance(a, ast.AnnAssign) and a.value is not None:
+                tgt, val = a.target, a.value
+            else:
+                continue
+            if not isinstance(tgt, ast.Name):
+                continue
+            for c in ast.walk(val):
+                if isinstance(c, ast.Call) and call_name(c) == callname and (
+                        recv is None or (isinstance(c.func, ast.Attribute) and is_self_attr(c.func.value, recv))):
+                    out.append(tgt.id)
+                    break
+        return out
+
+    q = local_from("peek", "_event_queue")
+    s_ = local_from("get_schedulable_tasks")
+    r_ = local_from("get_placed_tasks")
+    ctx.floor("C05.R7", "locals holding queue head / schedulable tasks / running tasks", min(len(q), len(s_), len(r_)), 1)
+    needs = [("the event queue is empty", lin.formula(ast.parse(f"{q[0]} is None", mode="eval").body)),
+             ("no task is schedulable", lin.formula(ast.parse(f"len({s_[0]}) == 0", mode="eval").body)),
+             ("no task is running", lin.formula(ast.parse(f"len({r_[0]}) == 0", mode="eval").body))]
+    # the three locals are single-assignment (otherwise the test may look at a stale value)
+    for name in (q[0], s_[0], r_[0]):
+        n_defs = sum(1 for a in ast.walk(fn) if isinstance(a, (ast.Assign, ast.AugAssign, ast.AnnAssign))
+                     for t in (a.targets if isinstance(a, ast.Assign) else [a.target]) if isinstance(t, ast.Name) and t.id == name)
+        ctx.check(n_defs == 1, "C05.R7", f"{qualname(fn)}|`{name}` assigned once", loc(fn), "single definition", f"`{name}` is re-assigned")
+    ends = event_constructions(fn, "SIMULATOR_END")
+    n_work = 0
+    for e in ends:
+        en = g.node_of(e)
+        doms = [(t, pol) for t in g.nodes if t.kind == "test" for pol in ("T", "F") if g.edge_dominates(t, pol, en)]
+        timeout = any("loop_timeout" in norm(t.ast) and pol == "T" for t, pol in doms)
+        if timeout:
+            continue
+        n_work += 1
+        for what, need in needs:
+            ok = False
+            for t, pol in doms:
+                f = lin.formula(t.ast)
+                f = f if pol == "T" else lin.f_not(f)
+                try:
+                    if lin.entails(f, need):
+                        ok = True
+                        break
+                except ValueError:
+                    continue
+            ctx.check(ok, "C05.R7", f"{qualname(fn)}|end of work requires: {what}", loc(e), "entailed by a dominating test",
+                      f"the run is ended (SIMULATOR_END at line {e.lineno}) without having established that {what}: "
+                      "released or still-arriving work can be left unfinished")
+    ctx.floor("C05.R7", "out-of-work SIMULATOR_END constructions", n_work, 1)
+
+
 def r4_no_stuck_running(ctx: Context) -> None:
     ctx.rule("C05.R4", "Task.step never answers 'not finished' for a RUNNING task whose remaining time is zero, unless "
                        "its completion was already reported")
@@ -381,8 +444,9 @@ def r5_strategy_supplied(ctx: Context, rule: str = "C05.R5") -> None:
 
 
 def run(ctx: Context) -> None:
-    r1_timeout_dominance(ctx)
-    r2_r6_event_times(ctx)
-    r3_exit_structure(ctx)
-    r4_no_stuck_running(ctx)
-    r5_strategy_supplied(ctx)
+    ctx.isolate(r1_timeout_dominance)
+    ctx.isolate(r2_r6_event_times)
+    ctx.isolate(r3_exit_structure)
+    ctx.isolate(r4_no_stuck_running)
+    ctx.isolate(r5_strategy_supplied)
+    ctx.isolate(r7_end_of_work)
